@@ -14,6 +14,7 @@ REG = {}
 BUILTINS = {}
 USED = set()
 PLUGINS = []   # objects with optional hook methods (xarray / datetime / filesystem models)
+OPTIONS = {"finite_reals": False}   # per-contract switches (set by verify_contract from contract.options)
 
 
 class TypeTag:
@@ -130,6 +131,8 @@ def _norm_index(arr, idx):
         items = items[:k] + [Slice(None, None, None)] * (arr.ndim - n_real) + items[k + 1:]
     else:
         items = items + [Slice(None, None, None)] * (arr.ndim - n_real)
+    if sum(1 for it in items if isinstance(it, Arr)) > 1:
+        raise Unsupported("more than one index array (broadcast fancy indexing is not modelled)")
     d = 0
     for it in items:
         if it is None:
@@ -178,8 +181,9 @@ def arr_getitem(interp, st, arr, idx):
     idx = st.deref(idx) if isinstance(idx, Ref) else idx
     if isinstance(idx, tuple):
         idx = tuple(st.deref(i) if isinstance(i, Ref) else i for i in idx)
-    if isinstance(idx, Arr) and idx.sort == "bool":
-        return MaskedSel(arr, idx)
+    sel = _mask_select(interp, st, arr, idx)
+    if sel is not None:
+        return sel
     spec = _norm_index(arr, idx)
     if all(s[0] == "i" for s in spec):
         ix = tuple(s[1] for s in spec)
@@ -218,10 +222,102 @@ def arr_getitem(interp, st, arr, idx):
 
 
 class MaskedSel:
-    """x[mask] for a boolean mask: only reductions and masked stores are modelled."""
+    """x[mask] for a boolean mask, kept in the index space of x instead of being compressed:
+    `arr` is the (view of the) array selected from, `dom` a boolean Arr of arr's shape marking the
+    selected cells, `kind` says how the mask was applied: 'whole' (mask of the array's own shape)
+    or ('axis', k) (1-D mask on the k-th axis counted from the end, other axes complete).
+    Elementwise operations between selections with the same kind and (provably) the same domain
+    act cell by cell in the index space; a store `y[mask] = sel` scatters back.  That is numpy's
+    compress / scatter semantics as long as the domains agree, which is checked, never assumed."""
 
-    def __init__(self, arr, mask):
-        self.arr, self.mask = arr, mask
+    def __init__(self, arr, dom, kind):
+        self.arr, self.dom, self.kind = arr, dom, kind
+
+    @property
+    def mask(self):
+        return self.dom
+
+
+def _is_full_slice(it):
+    from .interp import Slice
+    return isinstance(it, Slice) and it.lo is None and it.hi is None and it.step is None
+
+
+def _bget(a, ix):
+    """cell of `a` at index ix of a broadcast shape"""
+    j = len(ix) - a.ndim
+    return a.get(tuple(0 if (isinstance(s_, int) and s_ == 1) else i for i, s_ in zip(ix[j:], a.shape)))
+
+
+def _same_bool(interp, st, a, b):
+    if isinstance(a, bool) or isinstance(b, bool):
+        if isinstance(a, bool) and isinstance(b, bool):
+            return a == b
+    else:
+        if a.eq(b) or z3.simplify(a).eq(z3.simplify(b)):
+            return True
+    return interp is not None and interp.valid(st, T.cmp("==", T.to_z3(a), T.to_z3(b)), timeout=3000)
+
+
+def _same_domain(interp, st, d1, d2, shape):
+    ix = tuple(T.Fresh.int("dx") for _ in shape)
+    return _same_bool(interp, st, _bget(d1, ix), _bget(d2, ix))
+
+
+def _mask_select(interp, st, arr, idx):
+    """x[mask], x[:, mask], x[None, mask] ... -> MaskedSel, or None when idx has no boolean mask"""
+    if isinstance(idx, MaskedSel):
+        raise Unsupported("selection by a compressed mask from a full array")
+    if isinstance(idx, Arr) and idx.sort == "bool":
+        if idx.ndim == arr.ndim == 1:
+            return MaskedSel(arr, idx, ("axis", 1))
+        if idx.ndim == arr.ndim:
+            return MaskedSel(arr, idx, "whole")
+        raise Unsupported("boolean mask of lower rank than the array")
+    if not isinstance(idx, tuple):
+        return None
+    masks = [k for k, it in enumerate(idx) if isinstance(it, Arr) and it.sort == "bool"]
+    if not masks:
+        return None
+    if len(masks) > 1 or idx[masks[0]].ndim != 1:
+        raise Unsupported("more than one boolean mask in an index")
+    from .interp import Slice
+    k = masks[0]
+    if not all(it is None or _is_full_slice(it) for j, it in enumerate(idx) if j != k):
+        raise Unsupported("boolean mask combined with partial slices / integers")
+    mask = idx[k]
+    plain = tuple(Slice(None, None, None) if j == k else it for j, it in enumerate(idx))
+    view = arr_getitem(interp, st, arr, plain)
+    pos = k          # every item before the mask (full slice or newaxis) yields one output axis
+    dom = Arr(view.shape, lambda ix, mask=mask, pos=pos: mask.get((ix[pos],)), (), "bool")
+    return MaskedSel(view, dom, ("axis", view.ndim - pos))
+
+
+def sel_getitem(interp, st, sel, idx):
+    """sel[m] where m is itself a selection of booleans with sel's domain: narrows the domain"""
+    idx = st.deref(idx)
+    if not (isinstance(idx, MaskedSel) and idx.arr.sort == "bool" and idx.kind == sel.kind):
+        raise Unsupported("index of a masked selection")
+    if not _same_domain(interp, st, sel.dom, idx.dom, sel.arr.shape):
+        raise Unsupported("masked selections with different domains")
+    dom = st.deref(ew(st, T.land, sel.dom, idx.arr, sort="bool"))
+    return MaskedSel(sel.arr, dom, sel.kind)
+
+
+def sel_setitem(interp, st, sel, idx, v):
+    target = sel_getitem(interp, st, sel, idx)
+    v = st.deref(v)
+    dom = target.dom
+    if isinstance(v, MaskedSel):
+        if v.kind != sel.kind or not _same_domain(interp, st, dom, v.dom, sel.arr.shape):
+            raise Unsupported("masked store: value selected with a different mask")
+        va = v.arr
+        new = sel.arr.updated(lambda ix: dom.get(ix), lambda ix: _bget(va, ix))
+    elif T.is_val(v):
+        new = sel.arr.updated(lambda ix: dom.get(ix), lambda ix: v)
+    else:
+        raise Unsupported("masked store of this value")
+    return MaskedSel(new, sel.dom, sel.kind)
 
 
 def arr_setitem(interp, st, arr, idx, v):
@@ -229,7 +325,7 @@ def arr_setitem(interp, st, arr, idx, v):
     v = st.deref(v)
     if isinstance(idx, tuple):
         idx = tuple(st.deref(i) if isinstance(i, Ref) else i for i in idx)
-    if isinstance(idx, Arr) and idx.sort == "bool":
+    if isinstance(idx, Arr) and idx.sort == "bool" and not isinstance(v, MaskedSel):
         mask = idx
         if isinstance(v, MaskedSel):
             if v.mask is not mask:
@@ -238,7 +334,29 @@ def arr_setitem(interp, st, arr, idx, v):
             return arr.updated(lambda ix: mask.get(ix[:mask.ndim]), lambda ix: src.get(ix))
         if isinstance(v, Arr):
             raise Unsupported("masked store of an array")
+        if not T.is_val(v):
+            raise Unsupported(f"masked store of {type(v).__name__}")
         return arr.updated(lambda ix: mask.get(ix[:mask.ndim]), lambda ix: v)
+    if isinstance(idx, tuple) and any(it is None for it in idx):
+        raise Unsupported("store with newaxis")
+    dest = _mask_select(interp, st, arr, idx)
+    if dest is not None:
+        dom = dest.dom
+        if isinstance(v, MaskedSel):
+            if v.kind != dest.kind or not _same_domain(interp, st, dom, v.dom, arr.shape):
+                raise Unsupported("masked store: value selected with a different mask")
+            if interp is not None and interp.ctx is not None:
+                for d1, d2 in zip(arr.shape[::-1], v.arr.shape[::-1]):
+                    if not (isinstance(d2, int) and d2 == 1) and d1 is not d2 and not (isinstance(d1, int) and isinstance(d2, int) and d1 == d2) \
+                            and not (is_sym(d1) and is_sym(d2) and d1.eq(d2)):
+                        interp.ctx.oblige(st, "shape.masked_store", T.cmp("==", d1, d2))
+            va = v.arr
+            return arr.updated(lambda ix: dom.get(ix), lambda ix: _bget(va, ix))
+        if isinstance(v, Arr) or not T.is_val(v):
+            raise Unsupported("masked store of an array")
+        return arr.updated(lambda ix: dom.get(ix), lambda ix: v)
+    if isinstance(v, (list, tuple)):
+        v = carr_from_list(_deep_list(st, v))
     spec = _norm_index(arr, idx)
     if any(s[0] in ("n", "a") for s in spec):
         raise Unsupported("store with newaxis / fancy index")
@@ -272,7 +390,7 @@ def arr_setitem(interp, st, arr, idx, v):
                 src.append(d)
             return v.get(tuple(src))
     else:
-        if not (T.is_num(v) or T.is_boolish(v)):
+        if not T.is_val(v):
             raise Unsupported(f"array store of {type(v).__name__}")
 
         def val(ix, v=v):
@@ -314,13 +432,19 @@ CUR_INTERP = [None]
 def ew(st, fn, *ops, sort=None):
     """Elementwise application with numpy broadcasting."""
     ops = [st.deref(o) for o in ops]
-    ms = [o for o in ops if isinstance(o, MaskedSel)]
-    if ms:
-        # x[mask] op y: computed on the uncompacted arrays, the result stays a selection by the same mask
-        if any(m.mask is not ms[0].mask for m in ms) or any(isinstance(o, Arr) for o in ops):
-            raise Unsupported("arithmetic mixing a masked selection with other arrays")
-        inner = st.deref(ew(st, fn, *[o.arr if isinstance(o, MaskedSel) else o for o in ops], sort=sort))
-        return MaskedSel(inner, ms[0].mask)
+    sels = [o for o in ops if isinstance(o, MaskedSel)]
+    if sels:
+        if any(isinstance(o, Arr) for o in ops):
+            raise Unsupported("arithmetic between a masked selection and a full array")
+        if any(o.kind != sels[0].kind for o in sels):
+            raise Unsupported("arithmetic between selections made along different axes")
+        under = st.deref(ew(st, fn, *[o.arr if isinstance(o, MaskedSel) else o for o in ops], sort=sort))
+        for o in sels[1:]:
+            if not _same_domain(CUR_INTERP[0], st, sels[0].dom, o.dom, under.shape):
+                raise Unsupported("arithmetic between selections with different masks")
+        d0 = sels[0].dom
+        dom = d0 if tuple(d0.shape) == tuple(under.shape) else Arr(under.shape, lambda ix, d0=d0: _bget(d0, ix), (), "bool")
+        return st.alloc(MaskedSel(under, dom, sels[0].kind), "sel")
     arrs = [o for o in ops if isinstance(o, Arr)]
     shape = _bshape(st, CUR_INTERP[0], [a.shape for a in arrs])
     nd = len(shape)
@@ -359,7 +483,7 @@ def _unary(name, fn, sort=None):
     @reg(name)
     def f(interp, st, args, kwargs, fn=fn, sort=sort):
         x = _val(st, args[0])
-        if isinstance(x, Arr):
+        if isinstance(x, (Arr, MaskedSel)):
             return ew(st, fn, x, sort=sort)
         if isinstance(x, Obj):
             r = obj_binop(interp, st, "ufunc:" + name.split(".")[-1], x, None)
@@ -381,10 +505,40 @@ _unary("numpy.fabs", T.absv)
 _unary("numpy.negative", T.neg)
 _unary("numpy.square", lambda a: T.mul(a, a))
 _unary("numpy.logical_not", T.lnot, "bool")
-_unary("numpy.floor", lambda a: a if isinstance(a, int) else (Fraction(a.numerator // a.denominator) if isinstance(a, Fraction) else z3.ToReal(z3.ToInt(T.to_real(a)))))
-_unary("numpy.isnan", lambda a: False, "bool")       # real-number model: no NaN (XReal arrays override)
-_unary("numpy.isfinite", lambda a: T.cmp("!=", a, T.INF) if is_sym(a) else True, "bool")
-_unary("numpy.isinf", lambda a: T.cmp("==", a, T.INF) if is_sym(a) else False, "bool")
+def _floor(a):
+    if isinstance(a, T.XR):
+        return T.xr(_floor(a.v), a.nan)
+    return a if isinstance(a, int) else (Fraction(a.numerator // a.denominator) if isinstance(a, Fraction) else z3.ToReal(z3.ToInt(T.to_real(a))))
+
+
+_unary("numpy.floor", _floor)
+def _finite_plain(a):
+    if OPTIONS.get("finite_reals") and not (is_sym(a) and a.eq(T.INF)):
+        return True       # contract option: every non-NaN value of this contract is finite
+    return T.cmp("!=", a, T.INF) if is_sym(a) else True
+
+
+_unary("numpy.isnan", lambda a: T.xnan(a), "bool")    # plain reals are never NaN; terms.XR values carry a flag
+_unary("numpy.isfinite", lambda a: T.land(T.lnot(T.xnan(a)), _finite_plain(T.xval(a))), "bool")
+_unary("numpy.isinf", lambda a: T.land(T.lnot(T.xnan(a)), T.lnot(_finite_plain(T.xval(a)))), "bool")
+
+
+def _rint(a):
+    """round half to even (numpy.rint)"""
+    if isinstance(a, T.XR):
+        return T.xr(_rint(a.v), a.nan)
+    if isinstance(a, int):
+        return a
+    if isinstance(a, Fraction):
+        return Fraction(round(a))
+    r = T.to_real(a)
+    fl = z3.ToInt(r)
+    d = r - z3.ToReal(fl)
+    up = z3.Or(d > z3.Q(1, 2), z3.And(d == z3.Q(1, 2), fl % 2 != 0))
+    return z3.ToReal(z3.If(up, fl + 1, fl))
+
+
+_unary("numpy.rint", _rint)
 _unary("numpy.float64", lambda a: T.to_real(a) if is_sym(a) else Fraction(a))
 _unary("numpy.float32", lambda a: T.to_real(a) if is_sym(a) else Fraction(a))
 _unary("numpy.int64", lambda a: a)
@@ -396,8 +550,10 @@ _unary("numpy.sign", lambda a: T.ite(T.cmp(">", a, 0), 1, T.ite(T.cmp("<", a, 0)
 REG["numpy.pi"] = T.PI
 REG["math.pi"] = T.PI
 REG["numpy.inf"] = T.INF
+REG["numpy.nan"] = T.NAN
+REG["numpy.NaN"] = T.NAN
+REG["math.nan"] = T.NAN
 REG["math.inf"] = T.INF
-REG["numpy.nan"] = Opaque("nan")     # not a real number: usable as a returned marker only (arithmetic on it is unsupported)
 REG["numpy.newaxis"] = None
 for _t in ("ndarray", "float64", "int64", "float32", "int32", "bool_", "datetime64", "timedelta64", "complex64", "complex128"):
     if "numpy." + _t not in REG:
@@ -452,12 +608,34 @@ def _shape_arg(st, s):
     s = st.deref(s)
     if isinstance(s, (tuple, list)):
         return tuple(st.deref(x) for x in s)
+    if isinstance(s, CArr) and s.ndim == 1:
+        return tuple(s.tolist())
+    if isinstance(s, Arr):
+        raise Unsupported("array of symbolic length as a shape")
     return (s,)
 
 
-def _alloc_uninit(st, shape, name="empty"):
+def _dtype_sort(st, kwargs, default="real"):
+    d = st.deref(kwargs.get("dtype")) if "dtype" in kwargs else None
+    if isinstance(d, TypeTag):
+        d = d.name
+    if isinstance(d, LibFunc):
+        d = d.name
+    if isinstance(d, str):
+        if "int" in d:
+            return "int"
+        if "bool" in d:
+            return "bool"
+        if "float" in d:
+            return "real"
+        if "complex" in d:
+            raise Unsupported("complex arrays")
+    return default
+
+
+def _alloc_uninit(st, shape, name="empty", sort="real"):
     """np.empty: cells hold unspecified values -> a fresh uninterpreted function."""
-    a = sym_array(T.Fresh.name(name), shape)
+    a = sym_array(T.Fresh.name(name), shape, sort)
     if all(isinstance(s, int) for s in shape) and _size(shape) <= 256:
         a = materialise(a)
     return st.alloc(a, name)
@@ -478,17 +656,19 @@ def _const_arr(st, shape, v, sort="real"):
 
 @reg("numpy.empty")
 def np_empty(interp, st, args, kwargs):
-    return _alloc_uninit(st, _shape_arg(st, args[0] if args else kwargs["shape"]))
+    return _alloc_uninit(st, _shape_arg(st, args[0] if args else kwargs["shape"]), sort=_dtype_sort(st, kwargs))
 
 
 @reg("numpy.zeros")
 def np_zeros(interp, st, args, kwargs):
-    return _const_arr(st, _shape_arg(st, args[0] if args else kwargs["shape"]), Fraction(0))
+    srt = _dtype_sort(st, kwargs)
+    return _const_arr(st, _shape_arg(st, args[0] if args else kwargs["shape"]), 0 if srt == "int" else Fraction(0), srt)
 
 
 @reg("numpy.ones")
 def np_ones(interp, st, args, kwargs):
-    return _const_arr(st, _shape_arg(st, args[0] if args else kwargs["shape"]), Fraction(1))
+    srt = _dtype_sort(st, kwargs)
+    return _const_arr(st, _shape_arg(st, args[0] if args else kwargs["shape"]), 1 if srt == "int" else Fraction(1), srt)
 
 
 @reg("numpy.full")
@@ -496,14 +676,93 @@ def np_full(interp, st, args, kwargs):
     return _const_arr(st, _shape_arg(st, args[0]), st.deref(args[1]))
 
 
-@reg("numpy.full_like")
-def np_full_like(interp, st, args, kwargs):
-    return _const_arr(st, _val(st, args[0]).shape, st.deref(args[1]))
-
-
 @reg("numpy.empty_like")
 def np_empty_like(interp, st, args, kwargs):
-    return _alloc_uninit(st, _val(st, args[0]).shape)
+    a = _val(st, args[0])
+    return _alloc_uninit(st, a.shape, sort=_dtype_sort(st, kwargs, a.sort if a.sort in ("int", "bool") else "real"))
+
+
+@reg("numpy.full_like")
+def np_full_like(interp, st, args, kwargs):
+    a = _val(st, args[0])
+    v = st.deref(args[1] if len(args) > 1 else kwargs["fill_value"])
+    if not T.is_val(v):
+        raise Unsupported("np.full_like fill value")
+    if isinstance(a, MaskedSel):
+        return st.alloc(MaskedSel(Arr(a.arr.shape, lambda ix, v=v: v, (), "real"), a.dom, a.kind), "sel")
+    if not isinstance(a, Arr):
+        raise Unsupported("np.full_like of a non-array")
+    return _const_arr(st, a.shape, v)
+
+
+@reg("numpy.searchsorted")
+def np_searchsorted(interp, st, args, kwargs):
+    """np.searchsorted(a, v, side): for `a` sorted in non-decreasing order (numpy's documented
+    requirement, emitted as an obligation) the insertion point is the number of cells < v (left)
+    or <= v (right), i.e. the first index whose cell is >= v (left) / > v (right), len(a) if none."""
+    a = _val(st, args[0])
+    v = _val(st, args[1] if len(args) > 1 else kwargs["v"])
+    side = st.deref(kwargs.get("side", args[2] if len(args) > 2 else "left"))
+    if side not in ("left", "right"):
+        raise Unsupported("np.searchsorted side")
+    if "sorter" in kwargs:
+        raise Unsupported("np.searchsorted sorter")
+    op = ">" if side == "right" else ">="
+    if isinstance(a, (list, tuple)):
+        a = [st.deref(e) for e in a]
+        if all(isinstance(e, (int, Fraction)) for e in a) and isinstance(v, (int, Fraction)):
+            if any(a[k] > a[k + 1] for k in range(len(a) - 1)):
+                raise Unsupported("np.searchsorted on an unsorted sequence")
+            return sum(1 for e in a if not T.cmp(op, e, v))
+        a = carr_from_list(a)
+    if not isinstance(a, Arr) or a.ndim != 1:
+        raise Unsupported("np.searchsorted: first argument must be 1-d")
+    n = a.shape[0]
+    if interp.ctx is not None:
+        q = T.Fresh.int("q")
+        nxt = a.get((q + 1,))
+        cur = a.get((q,))
+        if isinstance(n, int):
+            srt = T.land(*[T.cmp("<=", a.get((k,)), a.get((k + 1,))) for k in range(n - 1)])
+        else:
+            srt = z3.ForAll([q], z3.Implies(z3.And(q >= 0, q + 1 < T.to_z3(n)), T.to_z3(T.cmp("<=", cur, nxt))))
+        interp.ctx.oblige(st, "pre.searchsorted.sorted", srt)
+
+    def one(val):
+        if isinstance(val, T.XR):
+            raise Unsupported("np.searchsorted of a possibly-NaN value")
+        bv = T.Fresh.int("k")
+        body = T.cmp(op, a.get((bv,)), val)
+        if isinstance(body, bool):
+            return 0 if body else n
+        return T.make_first(0, n, bv, T.to_z3(body))
+    if isinstance(v, Arr):
+        r = Arr(v.shape, lambda ix: one(v.get(ix)), (), "int")
+        return st.alloc(materialise(r) if isinstance(v, CArr) else r, "arr")
+    if not T.is_num(v):
+        raise Unsupported("np.searchsorted value")
+    return one(v)
+
+
+@reg("numpy.flip")
+def np_flip(interp, st, args, kwargs):
+    a = _val(st, args[0])
+    if not isinstance(a, Arr) or a.ndim != 1:
+        raise Unsupported("np.flip of non-1d")
+    n = a.shape[0]
+    r = Arr(a.shape, lambda ix: a.get((T.sub(T.sub(n, 1), ix[0]),)), (), a.sort)
+    return st.alloc(materialise(r) if isinstance(a, CArr) else r, "arr")
+
+
+@reg("builtins.slice", True)
+def b_slice(interp, st, args, kwargs):
+    from .interp import Slice
+    a = [st.deref(x) for x in args]
+    if len(a) == 1:
+        return Slice(None, a[0], None)
+    if len(a) == 2:
+        return Slice(a[0], a[1], None)
+    return Slice(a[0], a[1], a[2])
 
 
 @reg("numpy.zeros_like")
@@ -646,11 +905,51 @@ def quant_all(a, pred=lambda v: v):
     return z3.ForAll(ix, z3.Implies(rng, body))
 
 
+def _reduce_bool_axes(st, a, axis, is_all):
+    """np.all / np.any over the given axes -> boolean array over the remaining ones"""
+    axis = st.deref(axis)
+    axes = [axis] if isinstance(axis, int) else [st.deref(x) for x in axis]
+    if not all(isinstance(x, int) for x in axes):
+        raise Unsupported("symbolic axis")
+    axes = sorted({x + a.ndim if x < 0 else x for x in axes})
+    if not axes:
+        return st.alloc(Arr(a.shape, a.get, (), "bool"), "arr")
+    keep = [k for k in range(a.ndim) if k not in axes]
+    oshape = tuple(a.shape[k] for k in keep)
+
+    def base(ix, a=a, axes=axes, keep=keep):
+        qs = {k: T.Fresh.int("q") for k in axes}
+        full = [None] * a.ndim
+        for j, k in enumerate(keep):
+            full[k] = ix[j]
+        for k in axes:
+            full[k] = qs[k]
+        cell = a.get(tuple(full))
+        if isinstance(cell, bool):
+            nonempty = T.land(*[T.cmp(">", a.shape[k], 0) for k in axes])
+            return T.lor(cell, T.lnot(nonempty)) if is_all else T.land(cell, nonempty)
+        if all(isinstance(a.shape[k], int) for k in axes) and _size([a.shape[k] for k in axes]) <= 64:
+            cells = []
+            for combo in itertools.product(*[range(a.shape[k]) for k in axes]):
+                cells.append(z3.substitute(cell, *[(qs[k], z3.IntVal(c)) for k, c in zip(axes, combo)]))
+            return T.land(*cells) if is_all else T.lor(*cells)
+        rng = z3.And(*[z3.And(qs[k] >= 0, qs[k] < T.to_z3(a.shape[k])) for k in axes])
+        vs = [qs[k] for k in axes]
+        return z3.ForAll(vs, z3.Implies(rng, cell)) if is_all else z3.Exists(vs, z3.And(rng, cell))
+    r = Arr(oshape, base, (), "bool")
+    if not oshape:
+        return r.get(())
+    return st.alloc(r, "arr")
+
+
 @reg("numpy.all")
 def np_all(interp, st, args, kwargs):
     a = _val(st, args[0])
     if not isinstance(a, Arr):
         return a
+    axis = kwargs.get("axis", args[1] if len(args) > 1 else None)
+    if axis is not None:
+        return _reduce_bool_axes(st, a, axis, True)
     return quant_all(a)
 
 
@@ -659,6 +958,9 @@ def np_any(interp, st, args, kwargs):
     a = _val(st, args[0])
     if not isinstance(a, Arr):
         return a
+    axis = kwargs.get("axis", args[1] if len(args) > 1 else None)
+    if axis is not None:
+        return _reduce_bool_axes(st, a, axis, False)
     return T.lnot(quant_all(a, T.lnot))
 
 
@@ -901,9 +1203,19 @@ def b_dict(interp, st, args, kwargs):
     return st.alloc(d, "dict")
 
 
+class EnumVal:
+    """enumerate(a) for an array whose length is symbolic (consumed by `for i, x in ...`)"""
+
+    def __init__(self, src):
+        self.src = src
+
+
 @reg("builtins.enumerate", True)
 def b_enumerate(interp, st, args, kwargs):
     start = args[1] if len(args) > 1 else kwargs.get("start", 0)
+    a0 = st.deref(args[0])
+    if isinstance(a0, Arr) and a0.ndim >= 1 and not isinstance(a0.shape[0], int) and start == 0:
+        return EnumVal(args[0])
     return st.alloc([(i + start, x) for i, x in enumerate(interp.iterate(st, args[0]))], "list")
 
 
